@@ -473,5 +473,9 @@ func run(tier, path string) {
 	x.reuseOps(5, (mult+3)/4)
 	x.skipOps(3, 60*mult)
 	x.skipOps(4, 60*mult)
+	for v := 2; v <= 5; v++ {
+		x.pagesOps(v, 25*mult)
+		x.qoneOps(v, 15*mult)
+	}
 	out.Close(map[string]interface{}{"skipped_unsafe_alloc_inputs": x.skip})
 }
